@@ -61,6 +61,7 @@ pub enum Cat {
     Mail,
     Move,
     Serde,
+    Shared,
 }
 
 pub struct Profile {
@@ -88,7 +89,7 @@ pub const PROFILES: &[Profile] = &[
         weights: &[
             (CreateSized, 8), (CreateSlice, 6), (CreateThin, 4), (CreateStr, 2), (CreateUninit, 2), (CreateLying, 1),
             (Clone, 14), (Convert, 10), (Raw, 6), (Union, 5), (Thin, 6), (Swap, 2), (Inspect, 5), (Cmp, 2), (Uniq, 5), (Cow, 4),
-            (Unwrap, 4), (ThinMut, 3), (Uninit, 3), (Drop, 16), (Mail, 5), (Move, 2),
+            (Unwrap, 4), (ThinMut, 3), (Uninit, 3), (Drop, 16), (Mail, 5), (Move, 2), (Shared, 4),
         ],
         threads: &[(1, 50), (2, 25), (3, 15), (4, 10)],
         setup_ops: (3, 14),
@@ -101,7 +102,7 @@ pub const PROFILES: &[Profile] = &[
     },
     Profile {
         name: "C02",
-        weights: &[(Clone, 22), (Convert, 8), (Raw, 4), (Union, 3), (Thin, 4), (Inspect, 14), (Drop, 26), (Mail, 12), (Move, 1), (CreateSized, 2), (CreateSlice, 1), (Unwrap, 4), (Uniq, 3), (Cow, 3)],
+        weights: &[(Clone, 22), (Convert, 8), (Raw, 4), (Union, 3), (Thin, 4), (Inspect, 14), (Drop, 26), (Mail, 12), (Move, 1), (CreateSized, 2), (CreateSlice, 1), (Unwrap, 4), (Uniq, 3), (Cow, 3), (Shared, 12)],
         threads: &[(2, 60), (3, 30), (4, 10)],
         setup_ops: (3, 10),
         par_ops: (2, 10),
@@ -113,7 +114,7 @@ pub const PROFILES: &[Profile] = &[
     },
     Profile {
         name: "C03",
-        weights: &[(Uniq, 30), (Cow, 6), (Unwrap, 4), (ThinMut, 6), (Clone, 14), (Convert, 6), (Raw, 3), (Union, 3), (Thin, 3), (Inspect, 8), (Drop, 16), (Mail, 5), (CreateSized, 5), (CreateSlice, 3), (CreateThin, 2), (CreateUninit, 2), (Uninit, 2)],
+        weights: &[(Uniq, 30), (Cow, 6), (Unwrap, 4), (ThinMut, 6), (Clone, 14), (Convert, 6), (Raw, 3), (Union, 3), (Thin, 3), (Inspect, 8), (Drop, 16), (Mail, 5), (CreateSized, 5), (CreateSlice, 3), (CreateThin, 2), (CreateUninit, 2), (Uninit, 2), (Shared, 5)],
         threads: &[(1, 45), (2, 35), (3, 20)],
         setup_ops: (3, 10),
         par_ops: (3, 14),
@@ -173,7 +174,7 @@ pub const PROFILES: &[Profile] = &[
     },
     Profile {
         name: "C08",
-        weights: &[(Cow, 30), (Clone, 16), (Convert, 8), (Raw, 4), (Union, 4), (Inspect, 8), (Drop, 16), (Mail, 5), (CreateSized, 8), (Uniq, 3)],
+        weights: &[(Cow, 30), (Clone, 16), (Convert, 8), (Raw, 4), (Union, 4), (Inspect, 8), (Drop, 16), (Mail, 5), (CreateSized, 8), (Uniq, 3), (Shared, 6)],
         threads: &[(1, 45), (2, 35), (3, 20)],
         setup_ops: (3, 10),
         par_ops: (3, 12),
@@ -185,7 +186,7 @@ pub const PROFILES: &[Profile] = &[
     },
     Profile {
         name: "C09",
-        weights: &[(Unwrap, 30), (Clone, 16), (Convert, 8), (Raw, 4), (Union, 4), (Inspect, 6), (Drop, 16), (Mail, 5), (CreateSized, 9), (Uniq, 3)],
+        weights: &[(Unwrap, 30), (Clone, 16), (Convert, 8), (Raw, 4), (Union, 4), (Inspect, 6), (Drop, 16), (Mail, 5), (CreateSized, 9), (Uniq, 3), (Shared, 5)],
         threads: &[(1, 45), (2, 35), (3, 20)],
         setup_ops: (3, 10),
         par_ops: (2, 10),
@@ -233,11 +234,11 @@ pub const PROFILES: &[Profile] = &[
     },
     Profile {
         name: "C15",
-        weights: &[(CreateUninit, 22), (Uninit, 34), (Clone, 6), (Convert, 8), (Thin, 3), (Uniq, 6), (Inspect, 5), (Drop, 16)],
-        threads: &[(1, 100)],
+        weights: &[(CreateUninit, 22), (Uninit, 30), (Clone, 8), (Convert, 8), (Thin, 3), (Uniq, 10), (Inspect, 6), (Drop, 16), (Mail, 3), (Shared, 2)],
+        threads: &[(1, 70), (2, 20), (3, 10)],
         setup_ops: (5, 32),
-        par_ops: (0, 0),
-        post_ops: (0, 0),
+        par_ops: (3, 12),
+        post_ops: (0, 4),
         fault_pct: 12,
         fault_kinds: &[Cb::Drop, Cb::Drop, Cb::Cmp, Cb::Fmt],
         max_len: 12,
@@ -247,7 +248,7 @@ pub const PROFILES: &[Profile] = &[
 
 pub const PROFILE_C17: Profile = Profile {
     name: "C17",
-    weights: &[(Serde, 30), (Clone, 18), (Inspect, 12), (Drop, 18), (Mail, 6), (CreateSized, 10), (Convert, 4), (Uniq, 3), (Cow, 2)],
+    weights: &[(Serde, 30), (Clone, 18), (Inspect, 12), (Drop, 18), (Mail, 6), (CreateSized, 10), (Convert, 4), (Uniq, 3), (Cow, 2), (Shared, 4)],
     threads: &[(1, 35), (2, 45), (3, 20)],
     setup_ops: (3, 10),
     par_ops: (3, 12),
@@ -810,6 +811,37 @@ impl<'a> G<'a> {
                 self.set(s, K::ArcP, a);
                 op(OpCode::DeInPlace, s, 0, self.rng.below(1000))
             }
+            Shared => {
+                // clone / read through one of the handles every thread shares by reference
+                let sh: Vec<usize> = (SHARED_BASE..SHARED_BASE + NSHARED).filter(|&i| self.slots[i].is_some()).collect();
+                let s = self.pick(&sh)?;
+                let src = self.slots[s].unwrap();
+                if self.rng.pct(25) {
+                    return op(OpCode::ReadShared, s, 0, 0);
+                }
+                let e = self.empty(lo, hi.min(SHARED_BASE));
+                let d = self.pick(&e)?;
+                let c = self.rng.below(16);
+                // which API is used decides the kind of the new handle
+                let kind = match (src.kind, c % 4) {
+                    (K::ArcP, 1) => K::ArcP,
+                    (K::ArcP, 2) => {
+                        if (c / 4) % 2 == 0 {
+                            K::ArcP
+                        } else {
+                            K::OffP
+                        }
+                    }
+                    (K::OffP, 1) | (K::OffP, 2) | (K::OffP, 3) => K::ArcP,
+                    (K::UnionP, 1) | (K::UnionP, 2) => K::ArcP,
+                    (K::UnionQ, 1) => K::ArcQ,
+                    (K::Thin, 2) => K::Fat,
+                    (k, _) => k,
+                };
+                self.allocs[src.alloc].owners += 1;
+                self.set(d, kind, src.alloc);
+                op(OpCode::CloneShared, s, d, c)
+            }
             Move => {
                 let o = self.occupied(lo, hi);
                 let s = self.pick(&o)?;
@@ -867,7 +899,7 @@ pub fn generate(prof: &Profile, seed: u64, cfg_a: bool) -> Program {
     } else {
         Vec::new()
     };
-    let total_slots = 4 * NS;
+    let total_slots = 4 * NS + NSHARED;
     let mut g = G {
         rng: &mut rng,
         slots: vec![None; total_slots],
@@ -914,6 +946,28 @@ pub fn generate(prof: &Profile, seed: u64, cfg_a: bool) -> Program {
                 g.allocs[sh.alloc].owners += 1;
                 g.set(d, sh.kind, sh.alloc);
                 setup.push(Op::new(OpCode::Clone, s as u32, d as u32, 0));
+            }
+        }
+    }
+    if nthreads > 1 && g.rng.pct(65) {
+        // park one or two handles where every thread can reach them by shared reference
+        let n = 1 + g.rng.below(2);
+        for i in 0..n {
+            let src = g.of_kind(0, nthreads * NS, &[Kind::ArcP, Kind::Thin, Kind::OffP, Kind::UnionP, Kind::UnionQ, Kind::Hs, Kind::Sl, Kind::ArcQ, Kind::Fat, Kind::DynP, Kind::ErasedP]);
+            if let Some(s) = g.pick(&src) {
+                let sh = g.slots[s].unwrap();
+                let d = SHARED_BASE + i;
+                if g.slots[d].is_none() {
+                    if g.rng.pct(50) {
+                        // move: the shared handle may be the only one (count exactly 1)
+                        g.slots[d] = g.slots[s].take();
+                        setup.push(Op::new(OpCode::MoveSlot, s as u32, d as u32, 0));
+                    } else {
+                        g.allocs[sh.alloc].owners += 1;
+                        g.set(d, sh.kind, sh.alloc);
+                        setup.push(Op::new(OpCode::Clone, s as u32, d as u32, 0));
+                    }
+                }
             }
         }
     }
